@@ -10,7 +10,7 @@ func GenerateUniqueValues(uniqueValues profile.UniqueValuesRule, iriExpander *mi
 	// Fetch variable
 	path := uniqueValues.Path
 	var rego []string
-	rego = append(rego, "#  querying path: "+path.Source())
+	rego = append(rego, queryingPathComment(path.Source()))
 	arrayRule := GeneratePropertyArray(path, uniqueValues.Variable.Name, iriExpander)
 
 	// Set variable values
